@@ -30,6 +30,9 @@ type tStruct interface {
 	rootN() int
 	touchedN() int // key count, before the operation, of the leaf the last prePut/preDelete ended in
 	forget()
+	// levelWork walks the search path of key and returns the largest number of the recorded
+	// comparator calls (others = the stored key each call compared key with) that fell on one node.
+	levelWork(key int, others []int) (max int, levels int)
 }
 
 type tNodeH[V comparable] = tree.VerifNode[int, V]
@@ -51,6 +54,50 @@ type tStructT[V comparable] struct {
 	// target collection
 	tmode int
 	tbuf  []int
+}
+
+func (s *tStructT[V]) levelWork(key int, others []int) (max int, levels int) {
+	w := s.w
+	x := s.root()
+	for !x.Nil() {
+		levels++
+		n := x.N()
+		keys := x.Keys()
+		if n > len(keys) {
+			n = len(keys)
+		}
+		c := 0
+		for _, o := range others {
+			for i := 0; i < n; i++ {
+				if keys[i] == o {
+					c++
+					break
+				}
+			}
+		}
+		if c > max {
+			max = c
+		}
+		// descend as a search for key would
+		idx := 0
+		found := false
+		for idx < n {
+			d := w.rawCmp(key, keys[idx])
+			if d == 0 {
+				found = true
+				break
+			}
+			if d < 0 {
+				break
+			}
+			idx++
+		}
+		if found || x.NumChildSlots() == 0 || x.Child(0).Nil() || idx >= x.NumChildSlots() {
+			break
+		}
+		x = x.Child(idx)
+	}
+	return max, levels
 }
 
 func (s *tStructT[V]) rootN() int    { return s.root().N() }
